@@ -125,11 +125,13 @@ theorem C18_sound (env : Env) (s : State) (rel : Relevant) (tx : Tx) (sp : Nat)
                   rw [hrr']; rfl
                 rw [this]; exact hrn
 
-/-- each failing condition rejects: an invalid proof -/
+/-- each failing condition rejects: an invalid proof — one on which `melpow::Proof::verify` answers `false`, or
+    (since the `fix:` for finding F9) one on which it panics because the proof lacks nodes the verifier looks up -/
 theorem C18_invalid_proof (env : Env) (s : State) (rel : Relevant) (tx : Tx) (coinId : CoinID) (coin : CoinDataHeight)
     (seedHdr : Header) (d : Nat) (hi : tx.inputs.head? = some coinId) (hc : rel.get coinId = some coin)
     (hs : s.history.get coin.height = some seedHdr) (hd : tx.powDifficulty = some d)
-    (hv : env.powOk (env.hdrHash seedHdr) coinId d tx.hash = .invalid) :
+    (hv : env.powOk (env.hdrHash seedHdr) coinId d tx.hash = .invalid ∨
+          env.powOk (env.hdrHash seedHdr) coinId d tx.hash = .panics) :
     ∀ sp, validateDoscmint env s rel tx ≠ .ok sp := by
   intro sp h
   obtain ⟨coinId', coin', seedHdr', _, d', t, _, hi', hc', _, hs', _, hd', _, hv', _⟩ := C18_sound env s rel tx sp h
@@ -137,8 +139,51 @@ theorem C18_invalid_proof (env : Env) (s : State) (rel : Relevant) (tx : Tx) (co
   rw [hc] at hc'; injection hc' with hc'; subst hc'
   rw [hs] at hs'; injection hs' with hs'; subst hs'
   rw [hd] at hd'; injection hd' with hd'; subst hd'
-  rw [hv] at hv'
-  cases t <;> simp at hv'
+  rcases hv with hv | hv <;> rw [hv] at hv' <;> cases t <;> simp at hv'
+
+/-- … and the answer is exactly `InvalidMelPoW` once the checks before the proof check pass (the spent coin is
+    known and not from the future, the seed header is recorded, difficulty and proof decode), whether the verifier
+    says "invalid" or panics.  (A coin too young on mainnet gives the same answer, so no age hypothesis.) -/
+theorem C18_bad_proof_rejected (env : Env) (s : State) (rel : Relevant) (tx : Tx) (coinId : CoinID)
+    (coin : CoinDataHeight) (seedHdr : Header) (d : Nat)
+    (hi : tx.inputs.head? = some coinId) (hc : rel.get coinId = some coin) (hle : coin.height ≤ s.height)
+    (hs : s.history.get coin.height = some seedHdr) (hd : tx.powDifficulty = some d)
+    (hparse : tx.powProofParses = true)
+    (hv : env.powOk (env.hdrHash seedHdr) coinId d tx.hash = .invalid ∨
+          env.powOk (env.hdrHash seedHdr) coinId d tx.hash = .panics) :
+    validateDoscmint env s rel tx = .reject .invalidMelPoW := by
+  unfold validateDoscmint
+  cases hin : tx.inputs with
+  | nil => rw [hin] at hi; cases hi
+  | cons c rest =>
+    rw [hin] at hi
+    simp only [List.head?_cons, Option.some.injEq] at hi
+    subst hi
+    simp only [hc, hs, hd, hparse]
+    rw [if_neg (Nat.not_lt.mpr hle)]
+    split
+    · rfl
+    · rcases hv with hv | hv <;> rw [hv] <;> rfl
+
+/-- **the fix for finding F9**: a DoscMint whose proof makes `melpow::Proof::verify` panic is rejected with
+    `InvalidMelPoW` — not a crash, and certainly not accepted -/
+theorem C18_panicking_proof_rejected (env : Env) (s : State) (rel : Relevant) (tx : Tx) (coinId : CoinID)
+    (coin : CoinDataHeight) (seedHdr : Header) (d : Nat)
+    (hi : tx.inputs.head? = some coinId) (hc : rel.get coinId = some coin) (hle : coin.height ≤ s.height)
+    (hs : s.history.get coin.height = some seedHdr) (hd : tx.powDifficulty = some d)
+    (hparse : tx.powProofParses = true)
+    (hv : env.powOk (env.hdrHash seedHdr) coinId d tx.hash = .panics) :
+    validateDoscmint env s rel tx = .reject .invalidMelPoW :=
+  C18_bad_proof_rejected env s rel tx coinId coin seedHdr d hi hc hle hs hd hparse (Or.inr hv)
+
+/-- … in particular it is not accepted, under the hypotheses of `C18_invalid_proof` alone -/
+theorem C18_panicking_proof_not_accepted (env : Env) (s : State) (rel : Relevant) (tx : Tx) (coinId : CoinID)
+    (coin : CoinDataHeight) (seedHdr : Header) (d : Nat) (hi : tx.inputs.head? = some coinId)
+    (hc : rel.get coinId = some coin) (hs : s.history.get coin.height = some seedHdr)
+    (hd : tx.powDifficulty = some d)
+    (hv : env.powOk (env.hdrHash seedHdr) coinId d tx.hash = .panics) :
+    ∀ sp, validateDoscmint env s rel tx ≠ .ok sp :=
+  C18_invalid_proof env s rel tx coinId coin seedHdr d hi hc hs hd (Or.inr hv)
 
 /-- … undecodable data -/
 theorem C18_undecodable (env : Env) (s : State) (rel : Relevant) (tx : Tx) (h : tx.powDifficulty = none) :
@@ -210,6 +255,9 @@ end Mel
 
 #print axioms Mel.C18_sound
 #print axioms Mel.C18_invalid_proof
+#print axioms Mel.C18_bad_proof_rejected
+#print axioms Mel.C18_panicking_proof_rejected
+#print axioms Mel.C18_panicking_proof_not_accepted
 #print axioms Mel.C18_undecodable
 #print axioms Mel.C18_too_recent
 #print axioms Mel.C18_batch_validates
